@@ -173,7 +173,10 @@ func handleHelloResume(
 	if len(sessionID) > 0 && cfg.HasSessionStore {
 		if id, secret, err := cfg.GetSession(sessionID); err != nil {
 			return 0, &alert.Alert{Level: alert.Fatal, Description: alert.InternalError}, err
-		} else if id != nil {
+		} else if len(id) > 0 && len(secret) > 0 {
+			// The session is known only if the store returned one: an empty
+			// session, which is how some stores report a miss, must not be
+			// resumed - its "master secret" is known to everybody.
 			cfg.Log.Tracef("[handshake] resume session: %x", sessionID)
 
 			state.SessionID = sessionID
